@@ -94,6 +94,15 @@ GuardsCtor2(e) ==
      CG("scoped_dependency_same_scope", {"C02", "C09"}, (r.life = "scoped" /\ ok) =>
            \A a \in Range(e.args) : \A j \in Range(a.ids) :
                (j \in Ids /\ cs.inst[j].life = "scoped") => cs.inst[j].owner = e.scope),
+     \* a transient instance is given to one consumer only: not to two constructor invocations, not twice to one,
+     \* and not to a constructor after it was returned to a caller
+     CG("transient_handed_once", {"C03", "C09"},
+           \A a \in Range(e.args) : \A x \in DOMAIN a.ids :
+               LET j == a.ids[x] IN
+               (j \in Ids /\ cs.inst[j].life = "transient") =>
+                   /\ j \notin cs.handed
+                   /\ Cardinality({<<b, y>> \in UNION {{<<bb, yy>> : yy \in DOMAIN e.args[bb].ids} : bb \in DOMAIN e.args} :
+                                       e.args[b].ids[y] = j}) = 1),
      CG("constructed_in_live_scope", {"C13"}, TRUE)}
 
 \* an instance value registered as a singleton (not created by the container)
@@ -112,7 +121,8 @@ ApplyCtor2(e) ==
                                    value |-> FALSE,
                                    th |-> e.th, born |-> l, ready |-> 0, returned |-> FALSE, closed |-> 0, discarded |-> FALSE, failed |-> FALSE,
                                    deps |-> UNION {Range(e.args[j].ids) : j \in DOMAIN e.args}]]
-    IN [cs EXCEPT !.inst = recs @@ @]
+        usedTr == {j \in UNION {Range(e.args[b].ids) : b \in DOMAIN e.args} : j \in Ids /\ cs.inst[j].life = "transient"}
+    IN [cs EXCEPT !.inst = recs @@ @, !.handed = @ \cup usedTr]
 
 \* ---- close --------------------------------------------------------------------------------
 IsDiscard(e) == e.inst \in Ids /\ cs.inst[e.inst].th = e.th /\ cs.inst[e.inst].ready = 0 /\ ~cs.inst[e.inst].returned
